@@ -10,7 +10,7 @@ import json, os, shutil, subprocess, sys, tempfile, glob
 from concurrent.futures import ThreadPoolExecutor
 
 args = sys.argv[1:]
-jobs, out = 3, None
+jobs, out = 8, None
 pats = []
 i = 0
 while i < len(args):
@@ -43,12 +43,21 @@ def one(pf):
         if rc != 0:
             return pf, {'DOES-NOT-APPLY': [o.strip()[:100]]}
         env = dict(os.environ, VERIF_REPO=wt)
-        procs = {p: subprocess.Popen('./check %s quick -out %s' % (p, od), shell=True, cwd='/verif', env=env, stdout=subprocess.PIPE, stderr=subprocess.STDOUT, text=True) for p in props}
-        for p, pr in procs.items():
-            o, _ = pr.communicate()
-            lines = [l for l in o.splitlines() if l.startswith('VIOLATED') or l.startswith('UNDECIDED') or 'could not load' in l or 'panicked' in l or 'build failed' in l]
-            if pr.returncode != 0 or lines:
-                res[p] = [' '.join(l.split()[:3]) for l in lines[:10]] or ['rc=%d' % pr.returncode]
+        # one process for all twenty properties: the program is loaded once
+        rc, o = sh('./check all quick -out %s' % od, cwd='/verif', env=env)
+        cur = []
+        seenp = set()
+        for l in o.splitlines():
+            if l.startswith('VIOLATED') or l.startswith('UNDECIDED') or 'could not load' in l or 'panicked' in l or 'build failed' in l:
+                cur.append(l)
+            elif l.startswith('property C') and ' tier ' in l:
+                p = l.split()[1]
+                seenp.add(p)
+                if cur:
+                    res[p] = [' '.join(x.split()[:3]) for x in cur[:10]]
+                cur = []
+        if cur or len(seenp) != len(props):
+            res['?'] = [' '.join(x.split()[:3]) for x in cur[:10]] or ['only %d properties reported (rc=%d): %s' % (len(seenp), rc, o[-200:])]
         return pf, res
     finally:
         sh('git -C /repo worktree remove --force %s' % wt)
